@@ -313,6 +313,9 @@ def replay(ob):
     r = tr.replay_wyckoff_supercells()
     if r.get("reproduced"):
         return r
+    r = tr.replay_near_one()
+    if r.get("reproduced"):
+        return r
     r = tr.replay_flag(([w["sg"]] if "sg" in w else []) + [194, 139, 166, 47, 225, 62, 221])
     if r.get("reproduced"):
         return r
